@@ -1,4 +1,5 @@
 import AkVerif.Lemmas.ColorsConfTotal
+import AkVerif.Lemmas.ColorsConfGlobal
 /-!
 # C14 — syntax colors resolve by inheritance, independent of registration order
 
@@ -317,6 +318,65 @@ theorem parsed_colors_accepted (s : Str) (d : Desc) (h : parseInitStr s = .ok d)
     resOk (effOf par d) = true ∧ ∃ f, mkFmt nc (effOf par d) = .ok f :=
   ⟨effOf_ok hpar (parseInitStr_ok h), mkFmt_ok nc (effOf_ok hpar (parseInitStr_ok h))⟩
 
+/-! ### the configuration as the global one, synced palettes
+
+`runAll` is a whole case of the protocol: the constructor followed by operations on the configuration
+(`.op`) and on the module state of `ak.color`: `setGlobal` (`set_global_colors_config(conf)`), `syn k`
+(`P_k(synced=True)`), `sget k` (reading the accessors of that synced palette). -/
+
+/-- as long as the configuration is not made the global one, a case is exactly a history `run` of the
+theorems above (nothing of the global machinery interferes) -/
+theorem global_off_same (classes : List ClassDef) (nc : Bool) (cfg : Cfg) (ops : List Op) :
+    runAll classes nc cfg (ops.map GOp.op) =
+      mapE (fun w => (⟨w, false, []⟩ : GWorld)) (run classes nc cfg ops) := by
+  unfold runAll run
+  cases newConf nc cfg with
+  | error e => rfl
+  | ok c => exact runG_off ops ⟨⟨c, []⟩, false, []⟩ rfl
+
+/-- `resolve_spec` and `cache_fresh` for every case, global or not: `get_color` is the declarative one and a
+palette obtained from the configuration equals `get_color` of its syntax ids -/
+theorem resolve_spec_global (classes : List ClassDef) (nc : Bool) (cfg : Cfg) (ops : List GOp) (g : GWorld)
+    (h : runAll classes nc cfg ops = .ok g) :
+    (∀ id, SpecColor nc (descOf g.w.conf.map) id (getColor g.w.conf id)) ∧
+    (∀ k g' s, getPaletteG classes g k false = .ok (g', s) →
+      ∃ cd, classes[k]? = some cd ∧ s = snapOf g'.w.conf cd.accessors) := by
+  unfold runAll at h
+  cases h1 : newConf nc cfg with
+  | error err => simp [h1] at h
+  | ok c =>
+    simp only [h1] at h
+    obtain ⟨hgc, hnc, _⟩ := newConf_good (classes := classes) h1
+    have hi0 : GInv classes ⟨⟨c, []⟩, false, []⟩ :=
+      ⟨⟨hgc, fun k s hk => by simp [cacheGet] at hk⟩, fun hf => by cases hf⟩
+    obtain ⟨hi, hl⟩ := runG_inv ops _ g hi0 h
+    refine ⟨fun id => ?_, fun k g' s hp => ?_⟩
+    · have := getColor_spec hi.good.conf.good id
+      rwa [hl.nc, hnc] at this
+    · obtain ⟨_, _, _, cd, hcd, hs⟩ := getPaletteG_spec hi hp
+      exact ⟨cd, hcd, by simpa using hs⟩
+
+/-- **Synced palettes follow the global configuration.** After any case, if the configuration is the global
+one, every synced palette (created before or after it became global) shows for each accessor what
+`get_color` answers now — i.e. the formatter determined by the current final set of descriptions. -/
+theorem synced_fresh (classes : List ClassDef) (nc : Bool) (cfg : Cfg) (ops : List GOp) (g : GWorld)
+    (h : runAll classes nc cfg ops = .ok g) (hglob : g.isGlobal = true) (k : Nat) (s : Snap)
+    (hs : cacheGet g.synced k = some s) :
+    ∃ cd, classes[k]? = some cd ∧ s = snapOf g.w.conf cd.accessors ∧
+      ∀ a ∈ cd.accessors, SpecColor nc (descOf g.w.conf.map) a.2 (getColor g.w.conf a.2) := by
+  have hspec := (resolve_spec_global classes nc cfg ops g h).1
+  unfold runAll at h
+  cases h1 : newConf nc cfg with
+  | error err => simp [h1] at h
+  | ok c =>
+    simp only [h1] at h
+    obtain ⟨hgc, _, _⟩ := newConf_good (classes := classes) h1
+    have hi0 : GInv classes ⟨⟨c, []⟩, false, []⟩ :=
+      ⟨⟨hgc, fun k s hk => by simp [cacheGet] at hk⟩, fun hf => by cases hf⟩
+    obtain ⟨hi, _⟩ := runG_inv ops _ g hi0 h
+    obtain ⟨cd, hcd, hsn⟩ := hi.fresh hglob k s hs
+    exact ⟨cd, hcd, hsn, fun a _ => hspec a.2⟩
+
 /-! Non-vacuity: concrete histories evaluated by the kernel.  `B` refers to `A` (registered later) and
 selects the terminal default foreground with `-`; `C` refers to `B`.  Before `A` is known both are
 uncoloured, afterwards `B` = ESC[44;1m (background and bold inherited, foreground default) and
@@ -371,5 +431,18 @@ example : (∀ op ∈ exOps, op.plain = true) ∧ (regNames exOps).Nodup ∧
    acyclic_of_check
      (rank := chainDepth (flatten exCfg ++ (flatten Gen.C14.builtin ++ exOps.flatMap opItems)) 20)
      (by decide +kernel)⟩
+
+/-- a synced palette created while another configuration is the global one, a second one created
+afterwards; the chain of `C` is completed by the defaults of class 0 when the configuration becomes the
+global one, and `A` is overridden … no: registered first by class 0, so the later `add` does not change it -/
+def syncedAfter (r : Except Err GWorld) (k : Nat) : Option Snap :=
+  match r with
+  | .ok g => if g.isGlobal then cacheGet g.synced k else none
+  | .error _ => none
+
+example : syncedAfter (runAll exClasses false exCfg
+      [.syn 0, .setGlobal, .op (.add [(['A'], "GREEN".toList)]), .sget 0]) 0 =
+    some [(['t', 'e', 'x', 't'], ['T', 'E', 'X', 'T'], []),
+          (['a', 'c', 'c'], ['C'], Char.ofNat 27 :: "[32;44;4m".toList)] := by decide +kernel
 
 end C14
